@@ -208,19 +208,34 @@ def check(case):
         lab.append("inplace_assignment")
     if any(len(pa[i]) >= 2 and max(pa[i]) >= 8 and min(pa[i]) < 8 for i in range(p)):
         lab.append("parents_straddle_8")
-    for ci, call in enumerate(case["calls"]):
+    worklist = list(case["calls"])
+    ci = -1
+    while worklist:
+        call = worklist.pop(0)
+        ci += 1
         for r in mnoise:
             r.log.clear()
         for b in blocks:
             del b[:]
-        dicts = _call_dicts(call, p)
+        if "reuse" in call:
+            # a caller keeps its shift / noise dictionaries and passes the very same objects again, now without the
+            # do-interventions of the earlier call: what they say is what must happen
+            passed = {"do": {}, "shift": call["reuse"]["shift"], "noise": call["reuse"]["noise"]}
+            dicts = {"do": {}, "shift": call["expect"]["shift"], "noise": call["expect"]["noise"]}      # what the caller put in them
+            for d in (dicts["shift"], dicts["noise"]):
+                for f in d.values():
+                    _rec(f).log.clear()
+            lab.append("dicts_reused")
+        else:
+            passed = _call_dicts(call, p)
+            dicts = {nm: dict(d) for nm, d in passed.items()}
         kwargs = {}
         if dicts["do"] or call.get("pass_empty"):
-            kwargs["do_interventions"] = dicts["do"]
+            kwargs["do_interventions"] = passed["do"]
         if dicts["shift"] or call.get("pass_empty"):
-            kwargs["shift_interventions"] = dicts["shift"]
+            kwargs["shift_interventions"] = passed["shift"]
         if dicts["noise"] or call.get("pass_empty"):
-            kwargs["noise_interventions"] = dicts["noise"]
+            kwargs["noise_interventions"] = passed["noise"]
         if call.get("random_state") is not None:
             kwargs["random_state"] = call["random_state"]
         Xs = must(lib(anm.sample, n, **kwargs), "ANM.sample(call %d)" % ci)
@@ -280,6 +295,8 @@ def check(case):
         ov = [t for t in dicts["do"] if t in dicts["shift"] or t in dicts["noise"]]
         if ov:
             lab.append("do_overlap")
+            if "reuse" not in call and len(worklist) < 6:
+                worklist.insert(0, {"reuse": passed, "expect": dicts, "random_state": call.get("random_state")})
         for nm in ("do", "shift", "noise"):
             if dicts[nm]:
                 lab.append("has_" + nm)
